@@ -121,10 +121,12 @@ def simulate(case):
     return p, cell, sym, symname, grains, starts, rows
 
 
-def write_inputs(d, p, cell, sym, starts, rows, with_t):
+def write_inputs(d, p, cell, sym, starts, rows, with_t, oldnames=False):
     from ImageD11 import columnfile, parameters, grain
     n = len(rows)
-    cf = columnfile.colfile_from_dict({"sc": rows[:, 0].copy(), "fc": rows[:, 1].copy(), "omega": rows[:, 2].copy(),
+    # peak files name the detector coordinates sc/fc; files from the older merging program call them xc/yc
+    a, b = ("xc", "yc") if oldnames else ("sc", "fc")
+    cf = columnfile.colfile_from_dict({a: rows[:, 0].copy(), b: rows[:, 1].copy(), "omega": rows[:, 2].copy(),
                                        "Number_of_pixels": np.full(n, 10.0), "sum_intensity": np.full(n, 1000.0),
                                        "avg_intensity": np.full(n, 100.0)})
     allp = dict(p)
@@ -157,7 +159,8 @@ def check(case, rec=None):
         case["lattice"], case["ng"], case["strain"], case["omfloat"], case["constraint"], case["route"],
         case["starts_with_t"], p["wedge"], p["chi"], p["omegasign"]) + " uniq=%s" % case.get("uniq")
     try:
-        flt, par, ubi = write_inputs(d, p, cell, sym, starts, rows, case["starts_with_t"])
+        flt, par, ubi = write_inputs(d, p, cell, sym, starts, rows, case["starts_with_t"],
+                                     oldnames=(case["seed"] % 3 == 0))
         out = os.path.join(d, "out.map")
         latsym = symname if case["constraint"] == "matching" else "triclinic"
         buf = io.StringIO()
